@@ -3,6 +3,7 @@ common match can be constructed).  DESIGN §3 C05."""
 
 import itertools
 import multiprocessing as mp
+from functools import lru_cache
 
 from verif import ref
 from verif import ref_match as rm
@@ -125,6 +126,8 @@ def universe_pds(tier, depth=2):
                         iuse = tuple(f for f, (i, _) in zip(flags, combo) if i)
                         use = tuple(f for f, (i, e) in zip(flags, combo) if i and e)
                         out.append(("a/p", ver, slot, subslot, repo, iuse, use))
+    for ver in pool:  # the one other-key atom needs something to match
+        out.append(("a/q", ver, "0", "a", "r1", flags, ()))
     return out
 
 
@@ -149,6 +152,31 @@ def bits(tier, ad):
         m = build_atom(ad).match
         b = _BITS[k] = int("".join("1" if m(p) else "0" for p in pkgs), 2)
     return b
+
+
+@lru_cache(maxsize=None)
+def use_map(use):
+    """USE-dep tuple -> {flag: (negated, default)} (cached; treat as read-only)."""
+    return {flag: (neg, default) for neg, flag, default in map(rm.split_use_token, use)}
+
+
+def nodefault_flags(ad):
+    return frozenset(flag for flag, (neg, default) in use_map(ad[8]).items() if default is None)
+
+
+_MASK = {}
+
+
+def iuse_mask(tier, flags, pds=None, key=None):
+    """Bitset of the packages whose IUSE contains all of `flags`: only those are PMS-defined witnesses for atoms that
+    name these flags without a (+)/(-) default."""
+    k = (tier, flags, key)
+    m = _MASK.get(k)
+    if m is None:
+        if pds is None:
+            pds = universe(tier)[0]
+        m = _MASK[k] = int("".join("1" if flags.issubset(pd[5]) else "0" for pd in pds), 2)
+    return m
 
 
 def first_witness(tier, band):
@@ -178,13 +206,10 @@ def SETUP(tier):
 
 def excluded_pair(a, b):
     """A flag named with a default by one atom and without by the other."""
-    fa = {}
-    for tok in a[8]:
-        _, flag, default = rm.split_use_token(tok)
-        fa[flag] = default is not None
-    for tok in b[8]:
-        _, flag, default = rm.split_use_token(tok)
-        if flag in fa and fa[flag] != (default is not None):
+    ma, mb = use_map(a[8]), use_map(b[8])
+    for flag, (_, default) in ma.items():
+        o = mb.get(flag)
+        if o is not None and (o[1] is None) != (default is None):
             return True
     return False
 
@@ -199,10 +224,10 @@ def classify(a, b, ans):
     if a[7] is not None and b[7] is not None and a[7] != b[7]:
         return "repo-differs"
     if a[8] and b[8]:
-        sa = {rm.split_use_token(t)[1]: rm.split_use_token(t)[0] for t in a[8]}
-        for t in b[8]:
-            neg, flag, _ = rm.split_use_token(t)
-            if flag in sa and sa[flag] != neg:
+        mb = use_map(b[8])
+        for flag, (neg, _) in use_map(a[8]).items():
+            o = mb.get(flag)
+            if o is not None and o[0] != neg:
                 return "use-opposite"
     if not a[1] or not b[1]:
         return "unversioned"
@@ -210,30 +235,49 @@ def classify(a, b, ans):
     return f"{o1}|{o2}:{'T' if ans else 'F'}"
 
 
+_DEEP = {}
+_DEEPBITS = {}
+
+
 def deep_witness(tier, a, b):
-    """Search the depth-3 closure (fresh objects) for a package both atoms match."""
-    ma, mb = build_atom(a).match, build_atom(b).match
-    for pd in universe_pds(tier, depth=3):
-        p = build_pkg(pd)
-        if ma(p) and mb(p):
-            return pd
-    return None
+    """Search the depth-3 closure for a package both atoms match (universe and per-atom bitsets cached per process)."""
+    u = _DEEP.get(tier)
+    if u is None:
+        pds = universe_pds(tier, depth=3)
+        u = _DEEP[tier] = (pds, [build_pkg(pd) for pd in pds])
+    band = -1
+    for ad in (a, b):
+        k = (tier, ad)
+        x = _DEEPBITS.get(k)
+        if x is None:
+            m = build_atom(ad).match
+            x = _DEEPBITS[k] = int("".join("1" if m(p) else "0" for p in u[1]), 2)
+        band &= x
+    band &= iuse_mask(tier, nodefault_flags(a) | nodefault_flags(b), u[0], "deep")
+    if not band:
+        return None
+    return u[0][len(u[0]) - band.bit_length()]
 
 
-def judge(tier, a, b, A=None, B=None):
-    """Shared by work and replay. -> (class, answer, [(kind, message)])"""
+def judge(tier, a, b, A=None, B=None, deep=True):
+    """Shared by work and replay. -> (class, answer, [(kind, message)]).  deep=False: skip the depth-3 re-search and
+    return kind 'unwitnessed-shallow' (never recorded as a violation; work() uses it once its per-class cap is full)."""
     if A is None:
         A, B = build_atom(a), build_atom(b)
     ab = bool(A.intersects(B))
     ba = bool(B.intersects(A))
     cls = classify(a, b, ab)
     band = bits(tier, a) & bits(tier, b)
+    if band and (a[8] or b[8]):
+        band &= iuse_mask(tier, nodefault_flags(a) | nodefault_flags(b))
     if ab == ba and ab == bool(band):
         return cls, ab, ()
     ta, tb = rm.atom_text(a), rm.atom_text(b)
     out = []
     if ab != ba:
         out.append(("asymmetric", f"atom('{ta}').intersects(atom('{tb}')) = {ab} but the other way round = {ba}"))
+    if not deep and ab and ba and not band:
+        return cls, ab, (("unwitnessed-shallow", ""),)
     deep = None
     for x, y, ans in ((ta, tb, ab), (tb, ta, ba)):
         if band and not ans:
@@ -285,10 +329,16 @@ def work(task):
             if a[8] and b[8] and excluded_pair(a, b):
                 classes["excluded-mixed-default-forms"] = classes.get("excluded-mixed-default-forms", 0) + 1
                 continue
-            cls, ans, msgs = judge(tier, a, b, objs[i], objs[j])
+            cls, ans, msgs = judge(tier, a, b, objs[i], objs[j], deep=nper.get(("unwitnessed", ""), 0) < 3)
             evals += 1
             classes[cls] = classes.get(cls, 0) + 1
             for kind, msg in msgs:
+                if kind == "unwitnessed-shallow":
+                    # cap reached: an empty depth-2 intersection with intersects()==True, not re-searched, not recorded
+                    classes["unwitnessed-candidate-beyond-cap"] = classes.get("unwitnessed-candidate-beyond-cap", 0) + 1
+                    continue
+                if kind == "unwitnessed":
+                    nper[(kind, "")] = nper.get((kind, ""), 0) + 1
                 k = (kind, cls)
                 if nper.get(k, 0) < 2:
                     nper[k] = nper.get(k, 0) + 1
@@ -352,7 +402,70 @@ def _adjacent_revisions(case):
     return rh == rl + 1
 
 
-CLASSIFIERS = {"glob-raw-prefix-vs-intersects": _glob_vs_match, "strict-range-adjacent-revisions": _adjacent_revisions}
+def _glob_with_revision(case):
+    """'=v-rN*' against '~w', '>w' or '>=w' that does not match v-rN: intersects looks at v only (drops the glob's
+    revision) and answers True although the glob matches nothing beyond v-rN[digits]."""
+    a, b = _ops(case)
+    if case["kind"] != "unwitnessed" or not _tails_compatible(a, b):
+        return False
+    for g, o in ((a, b), (b, a)):
+        if g[1] == "=*" and "-r" in g[3] and o[1] in ("~", ">", ">="):
+            base = g[3].split("-r")[0]
+            if o[3].startswith(base) and not rm.version_holds(o[1], o[3], g[3]):
+                return True
+    return False
+
+
+def _use_sign_pairs(a, b):
+    """[(flag, tokA, tokB)] for flags both atoms name with opposite sign."""
+    ta = {rm.split_use_token(t)[1]: t for t in a[8]}
+    out = []
+    for t in b[8]:
+        neg, flag, _ = rm.split_use_token(t)
+        if flag in ta and rm.split_use_token(ta[flag])[0] != neg:
+            out.append((flag, ta[flag], t))
+    return out
+
+
+def _use_default_conflict(case):
+    """Opposite-sign USE deps on one flag, both with a default marker, spelled so that no package can satisfy both
+    (-f(+) with f(-)): intersects compares token text only and reports an intersection."""
+    a, b = _ops(case)
+    if case["kind"] != "unwitnessed":
+        return False
+    for flag, t1, t2 in _use_sign_pairs(a, b):
+        (n1, _, d1), (n2, _, d2) = rm.split_use_token(t1), rm.split_use_token(t2)
+        pos_d, neg_d = (d2, d1) if n1 else (d1, d2)
+        if d1 is not None and d2 is not None and d1 != d2 and not (pos_d == "+" and neg_d == "-"):
+            return True
+    return False
+
+
+def _match_nand_leak(case):
+    """Consequence of the C04 defect 'negated-use-deps-nand' in atom.match: an atom with >= 2 negated USE deps in one
+    default group matches packages that have one of the flags on, so such a package 'matches both' although the atoms
+    demand opposite states of a flag."""
+    a, b = _ops(case)
+    if case["kind"] != "missed" or not _use_sign_pairs(a, b):
+        return False
+    for x in (a, b):
+        groups = {}
+        for tok in x[8]:
+            neg, flag, default = rm.split_use_token(tok)
+            if neg:
+                groups[default] = groups.get(default, 0) + 1
+        if any(n >= 2 for n in groups.values()):
+            return True
+    return False
+
+
+CLASSIFIERS = {
+    "glob-raw-prefix-vs-intersects": _glob_vs_match,
+    "strict-range-adjacent-revisions": _adjacent_revisions,
+    "glob-with-revision-treated-as-version-glob": _glob_with_revision,
+    "use-default-conflict-by-token-text": _use_default_conflict,
+    "match-negated-use-deps-nand": _match_nand_leak,
+}
 
 BOUNDS = {
     "quick": "41 operator/version heads (pool 1, 1.1, 1-r1, 1.1-r2, 2, 1_p1) x 5 slot forms x 3 repo forms x 4 USE forms = 2461 atoms -> "
